@@ -206,7 +206,7 @@ def default_datum(ftype, default):
     return default
 
 
-def from_datum(node, d, tuples=True):
+def from_datum(node, d, tuples=True, loose=False):
     """Datum → value tree, choosing union branches by the C09 rule and
     substituting defaults for omitted record fields."""
     node = deref(node)
@@ -232,24 +232,24 @@ def from_datum(node, d, tuples=True):
     if k == "enum":
         return (k, node.symbols.index(d), None, None)
     if k == "array":
-        items = [from_datum(node.items, x, tuples) for x in d]
+        items = [from_datum(node.items, x, tuples, loose) for x in d]
         return (k, (items, [(len(items), False)] if items else []), None, None)
     if k == "map":
-        items = [(key, from_datum(node.values, x, tuples)) for key, x in d.items()]
+        items = [(key, from_datum(node.values, x, tuples, loose)) for key, x in d.items()]
         return (k, (items, [(len(items), False)] if items else []), None, None)
     if k == "record":
         kids = []
         for f in node.fields:
             if f.name in d:
-                kids.append(from_datum(f.type, d[f.name], tuples))
+                kids.append(from_datum(f.type, d[f.name], tuples, loose))
             elif f.has_default:
-                kids.append(from_datum(f.type, default_datum(f.type, f.default), tuples))
+                kids.append(from_datum(f.type, default_datum(f.type, f.default), tuples, loose))
             else:
-                kids.append(from_datum(f.type, None, tuples))
+                kids.append(from_datum(f.type, None, tuples, loose))
         return (k, kids, None, None)
     if k == "union":
-        i, inner = choose_branch(node, d, tuples)
-        return (k, (i, from_datum(node.branches[i], inner, tuples)), None, None)
+        i, inner = choose_branch(node, d, tuples, loose)
+        return (k, (i, from_datum(node.branches[i], inner, tuples, loose)), None, None)
     raise ValueError(k)
 
 
